@@ -34,20 +34,8 @@ def generate(ctx):
             ("sub", shp, X.const(0)): "m2", ("sub", shp, X.const(1)): "m1"}
     em = X.Emit(lambda v: leaf.get(v), path)
 
-    def raises(tr):
-        if tr[0] == "if":
-            a, b = raises(tr[2]), raises(tr[3])
-            if (a, b) == ("true", "false"):
-                return em.b(tr[1])
-            if (a, b) == ("false", "true"):
-                return "(negb %s)" % em.b(tr[1])
-            if a == b:
-                return a
-            return "(if %s then %s else %s)" % (em.b(tr[1]), a, b)
-        return "true" if tr[0] == "raise" else "false"
-
     sig = "(n2 n1 m2 m1 : Z)"
-    out += "Definition cc_raises %s : bool := %s.\n" % (sig, raises(t))
+    out += "Definition cc_raises %s : bool := %s.\n" % (sig, em.raises(t))
     t = X.prune_raises(t)
     if t is None or t[0] != "ret":
         raise Untranslatable("center_crop: the window depends on a branch", None, path)
